@@ -383,9 +383,11 @@ namespace nrf52_details
 
     bluetoe::details::uint128_t security_tool_box::create_passkey()
     {
-        const bluetoe::details::uint128_t result{{
-            random_number8(), random_number8(), random_number8()
-        }};
+        // a passkey is a 6 digit decimal number (000000 - 999999)
+        static constexpr std::uint32_t number_of_passkeys = 1000000;
+
+        bluetoe::details::uint128_t result{{ 0 }};
+        bluetoe::details::write_32bit( result.begin(), random_number32() % number_of_passkeys );
 
         return result;
     }
